@@ -400,6 +400,9 @@ func (p *c10ReProbe) trouble(where string) error {
 
 func (p *c10ReProbe) Prep(ctx context.Context, s *SharedStore) (any, error) {
 	m := p.m
+	if m.chaos {
+		vAssert(s == m.store, "inner-node-sees-the-parents-store") // also on a retried attempt of the inner flow
+	}
 	if !m.chaos {
 		vAssert(s == m.store, "inner-node-sees-the-parents-store")
 		if m.n < len(m.seq) {
@@ -430,7 +433,7 @@ func VH_C10_rerun() {
 	}
 	outer := NewFlow(p0)
 	outer.Connect(p0, DefaultAction, inner).Connect(inner, DefaultAction, p1)
-	_, err1 := Run(m.ctx, outer, NewSharedStore())
+	_, err1 := Run(m.ctx, outer, m.store)
 	_ = err1
 	// second run: clean
 	m.chaos, m.ctx, m.store = false, vNewCtx(), NewSharedStore()
